@@ -57,6 +57,8 @@ def cases(unit):
             if i % n == sh:
                 yield {'fam': 'line', 'items': items, 'tail': ''}
                 yield {'fam': 'line', 'items': items, 'tail': 'xy'}
+                if len(items) <= 2:
+                    yield {'fam': 'line', 'items': items, 'tail': 'z'}          # a trailing unterminated line of ONE character
     else:
         sh, n = unit['shard']
         for i, items in enumerate(spaces.sequences(range(len(LP_ALPHA)), unit['L'])):
